@@ -1,0 +1,16 @@
+//go:build verif
+
+/*
+ * Verification export: a barrier for the oracle's watermarks. Add-only; compiled only with
+ * `-tags verif`.
+ */
+
+package badger
+
+// VerifSettleWatermarks returns after the read and commit watermarks have processed every mark
+// sent before the call, so that DoneUntil (and with it the discard timestamp compactions read)
+// no longer moves unless a transaction begins or ends.
+func (db *DB) VerifSettleWatermarks() {
+	db.orc.readMark.VerifBarrier()
+	db.orc.txnMark.VerifBarrier()
+}
